@@ -374,6 +374,13 @@ func (gen *generator) irDICompositeType(new metadata.SpecializedNode, old *ast.D
 				md.VtableHolder = vtableHolder
 			case *metadata.DICompositeType:
 				md.VtableHolder = vtableHolder
+			case *metadata.DIDerivedType:
+				// The holder may be any type node (e.g. a typedef of a class).
+				md.VtableHolder = vtableHolder
+			case *metadata.DISubroutineType:
+				md.VtableHolder = vtableHolder
+			case *metadata.DIStringType:
+				md.VtableHolder = vtableHolder
 			default:
 				panic(fmt.Errorf("support for metadata DICompositeType vtableHolder field type %T not yet implemented", vtableHolder))
 			}
